@@ -48,7 +48,9 @@ fn main() {
                 std::process::exit(2);
             }
         };
-        std::process::exit(props::replay(id, &j));
+        let code = props::replay(id, &j);
+        cli::remove_private_devices();
+        std::process::exit(code);
     }
     let tier = match args[2].as_str() {
         "quick" => Tier::Quick,
@@ -85,5 +87,6 @@ fn main() {
             2
         }
     };
+    cli::remove_private_devices();
     std::process::exit(code);
 }
